@@ -67,11 +67,16 @@ def extract(fn: ast.FunctionDef, lit: Callable[[ast.AST], object], sibling: Call
                 put(k, v)
             state["default"] = lit(e.args[1]) if len(e.args) > 1 else None
             return True
-        if isinstance(e, ast.Call) and isinstance(e.func, ast.Attribute) and e.func.attr == "index" and len(e.args) == 1 and is_arg(e.args[0]):
+        if isinstance(e, ast.Call) and isinstance(e.func, ast.Attribute) and e.func.attr == "index" and 1 <= len(e.args) <= 3 and is_arg(e.args[0]) and \
+                not e.keywords:
             seq = lit(e.func.value)
             if not isinstance(seq, (list, tuple)):
                 raise Unknown(f"{ast.unparse(e.func.value)} is not a literal sequence")
-            for i, v in enumerate(seq):
+            lo = lit(e.args[1]) if len(e.args) > 1 else 0
+            hi = lit(e.args[2]) if len(e.args) > 2 else len(seq)
+            if not (isinstance(lo, int) and isinstance(hi, int)):
+                raise Unknown("index bounds are not literal integers")
+            for i, v in list(enumerate(seq))[slice(lo, hi)]:      # (the stop bound is exclusive, as in the code)
                 put(v, i)             # .index: the first occurrence wins
             state["default"] = KeyError      # (ValueError when absent: the table is partial)
             return True
